@@ -48,6 +48,17 @@ condition: invisible iff `Release` empties the free lists or no streaming
 session ever ran (`C08_pooled_allocator_cleared_history_independent`,
 `C08_pooled_allocator_invisible_without_streaming`,
 `C08_pooled_allocator_keeping_free_lists_history_dependent`).
+Concurrent history elements (a process that compiles several programs
+at the same time, each with its own Compiler and Params, shares the process
+state only — Model/ProcConc.lean: a step is a sequence of atomic micro-steps, an
+element runs its steps under a schedule):
+`C08_concurrent_interleavings_frame` (micro-steps leave what they read
+unchanged ⇒ under EVERY schedule every task gives its solo outputs),
+`C08_concurrent_history_solo_outputs` (the code as it is, over histories of
+concurrent elements of all step kinds), and for a package-level scratch cell
+that every constant's name passes through:
+`C08_shared_scratch_sequential_invisible` (no sequential history can see it),
+`C08_shared_scratch_interleaving_dependent` (an interleaving does).
 NOT a theorem: that nothing
 outside the enumerated sites and the modelled state influences the bytes
 (directory listing order, pointer values, scheduler) — that part is the
@@ -74,6 +85,7 @@ No two packages of /repo/pkg share a last path element (checked on every run).
 import MpcVerif.Proofs.Determinism
 import MpcVerif.Proofs.ProcState
 import MpcVerif.Proofs.ProcSteps
+import MpcVerif.Proofs.ProcConc
 
 namespace Mpc
 open Mpc.Det
@@ -519,5 +531,93 @@ theorem C08_pooled_allocator_cleared_history_independent {σ π : Type} (history
 example : (stepPool false ⟨.compile, ⟨[2, 2], []⟩, (), [], []⟩
       (runHistoryK (stepPool false) WAlloc.empty [⟨.stream, ⟨[2, 2], [⟨0, none⟩]⟩, (), [1, 2], [0, 1]⟩])).1.inIds
     = [0, 1, 2, 3] := by decide
+
+/-! ### Process state, CONCURRENT history elements (Model/ProcConc.lean)
+
+A process may run several steps at the same time (a server, parallel tests),
+each with its own `Compiler` and `Params`: they share the process state only.
+A step is a sequence of atomic micro-steps, a concurrent element runs its
+steps under a schedule; every interleaving is a schedule.  Tie to the code:
+(1) the pinned package-level variables, (2) the `chist` correspondence: along
+real histories with concurrent elements (k = 2..8 goroutines started from a
+barrier) the outputs of every step equal the model's under a seeded schedule,
+(3) the concurrent histories of harness/cmd/c08/pconc.go, one of them under
+the race detector. -/
+
+/-- GENERAL: let `reads` be the component of the process state that micro-steps
+read (`hread`).  If every micro-step leaves it unchanged, then under EVERY
+schedule — every interleaving of any number of concurrent tasks — each task
+produces exactly its solo outputs, and the component is unchanged. -/
+theorem C08_concurrent_interleavings_frame {σ ρ ο κ : Type} (micro : Micro σ ρ ο) (reads : σ → κ)
+    (hread : ∀ r s s', reads s = reads s' → (micro r s).1 = (micro r s').1)
+    (hkeep : ∀ r s, reads (micro r s).2 = reads s)
+    (sched : List Nat) (tasks : List (List ρ)) (s : σ) :
+    (concurrent micro sched tasks s).1 = tasks.map (fun t => solo micro t s) ∧
+    reads (concurrent micro sched tasks s).2 = reads s :=
+  concurrent_frame micro reads hread hkeep sched tasks s
+
+-- non-vacuity: a counter that no micro-step reads; three tasks, a schedule that interleaves them
+example : (concurrent (fun (r : Nat) (s : Nat × Nat) => (r + s.1, (s.1, s.2 + 1))) [2, 0, 1, 1, 0, 2, 2]
+      [[1, 2], [3], [4, 5, 6]] (10, 0)).1 = [[11, 12], [13], [14, 15, 16]] :=
+  (C08_concurrent_interleavings_frame _ (fun s => s.1) (fun _ _ _ h => by simp_all) (fun _ _ => rfl) _ _ _).1
+
+/-- FULL, for the code as it is: over every history of concurrent elements
+(any number of steps of any kinds per element, any schedule per element) every
+step's output is the output of the step ALONE in a fresh process
+(`stepNowK r st'` for any state `st'`). -/
+theorem C08_concurrent_history_solo_outputs {σ π : Type} (st st' : σ) :
+    ∀ (els : List (List Nat × List (Req π))),
+      (runElements microNow st (els.map fun e => (e.1, e.2.map microsK))).map (fun el => el.map assembleK) =
+        els.map (fun e => e.2.map fun r => (stepNowK r st').1)
+  | [] => rfl
+  | e :: rest => by
+    have a := concurrent_frame (microNow (σ := σ)) id (fun r s s' h => by cases h; rfl)
+      (fun r s => by cases r <;> rfl) e.1 (e.2.map microsK) st
+    have hs : (concurrent microNow e.1 (e.2.map microsK) st).2 = st := a.2
+    simp only [List.map_cons, runElements, hs]
+    rw [C08_concurrent_history_solo_outputs st st' rest, a.1]
+    simp only [List.map_map]
+    congr 1
+    apply List.map_congr_left
+    intro r _
+    exact assembleK_solo r st
+
+-- non-vacuity: two compilations and a Compute at the same time, interleaved fold by fold, then a compilation
+example : (runElements (microNow (σ := Unit)) ()
+      ([([0, 1, 2, 2, 1, 0, 0, 1], [⟨.compile, ⟨[128, 128], [⟨0, some ⟨128, .div, 0x80000000000000000000000000000001, 1000003⟩⟩, ⟨1, none⟩]⟩, (), [], []⟩,
+          ⟨.compile, ⟨[128, 128], [⟨0, some ⟨128, .div, 0xf123456789abcdef0123456789abcdef, 0x123456789abcdef01234567⟩⟩,
+                                   ⟨1, some ⟨128, .mod, 0xf123456789abcdef0123456789abcdef, 0x123456789abcdef01234567⟩⟩]⟩, (), [], []⟩,
+          ⟨.compute, ⟨[8], [⟨0, none⟩]⟩, (), [5], []⟩]),
+        ([], [(⟨.compile, ⟨[3, 4], []⟩, (), [], []⟩ : Req Unit)])].map fun e => (e.1, e.2.map microsK))).map
+      (fun el => el.map assembleK)
+    = [[⟨[340282196780265425013258226093608510051], List.range' 0 256, some 256, []⟩,
+        ⟨[340282366920938463463374607375665201152, 276701161135814226449], List.range' 0 256, some 256, []⟩,
+        ⟨[], List.range' 0 8, some 8, [5]⟩],
+       [⟨[], List.range' 0 7, some 7, []⟩]] := by decide +kernel
+
+/-- A package-level SCRATCH CELL through which every constant's name passes
+(written, then read back) is invisible to sequential histories: when the
+tasks of an element run one after the other (the empty schedule), each names
+its constants by their own values, whatever the cell held before … -/
+theorem C08_shared_scratch_sequential_invisible (tasks : List (List Nat)) (cell : Nat) :
+    (concurrent microScratch [] (tasks.map nameTask) cell).1.map namesOf = tasks := by
+  simp only [concurrent, runSched, List.map_map]
+  exact drain_nameTasks tasks cell
+
+example : (concurrent microScratch [] ([[1, 16, 24], [2, 16]].map nameTask) 99).1.map namesOf = [[1, 16, 24], [2, 16]] :=
+  C08_shared_scratch_sequential_invisible _ _
+
+/-- … and VISIBLE to an interleaving: two compilations, each naming one
+constant; the second writes the cell between the first's write and read, so the
+first names its constant `$2` — the witness of seeded change S93 (the SSA
+listing of every affected compilation changes; the circuit changes when the
+wrong name is the name of another constant of the program).  Found on the
+real code by the concurrent histories of harness/cmd/c08/pconc.go. -/
+theorem C08_shared_scratch_interleaving_dependent :
+    ∃ (sched : List Nat) (tasks : List (List Nat)) (cell : Nat),
+      (concurrent microScratch sched (tasks.map nameTask) cell).1.map namesOf ≠ tasks ∧
+      (concurrent microScratch sched (tasks.map nameTask) cell).1.map namesOf = [[2], [2]] ∧
+      (concurrent microScratch [] (tasks.map nameTask) cell).1.map namesOf = tasks :=
+  ⟨[0, 1, 0, 1], [[1], [2]], 0, by decide, by decide, by decide⟩
 
 end Mpc
